@@ -303,6 +303,37 @@ func ruleAttacks(c *vf.Ctx, x *chain.Explorer, w *chain.World, path []string) {
 								rn.FinalRenterOutput.Value = rn.FinalRenterOutput.Value.Add(one)
 							}
 						})
+						// rollover bound: a renewal into a much SMALLER contract, funded by rollover alone. Exactly the new
+						// contract's cost (its outputs + its tax) may be rolled over; one hasting more would leave the
+						// transaction as an ordinary output (no maturity delay, outside final outputs and rollover)
+						small := func(excess types.Currency) (chain.Use, bool) {
+							nc := w.NewV2Contract(h, 2, 2, fc.Filesize)
+							nc.RenterPublicKey, nc.HostPublicKey = fc.RenterPublicKey, fc.HostPublicKey
+							nc.RenterOutput.Value, nc.HostOutput.Value = types.Siacoins(10), types.Siacoins(5)
+							nc.MissedHostValue, nc.TotalCollateral = types.Siacoins(5), types.Siacoins(5)
+							cost := nc.RenterOutput.Value.Add(nc.HostOutput.Value).Add(w.CS.V2FileContractTax(nc))
+							roll := cost.Add(excess)
+							if fc.RenterOutput.Value.Cmp(roll) < 0 {
+								return chain.Use{}, false
+							}
+							rn := types.V2FileContractRenewal{NewContract: nc, RenterRollover: roll,
+								FinalRenterOutput: types.SiacoinOutput{Value: fc.RenterOutput.Value.Sub(roll), Address: fc.RenterOutput.Address},
+								FinalHostOutput:   types.SiacoinOutput{Value: fc.HostOutput.Value, Address: fc.HostOutput.Address}}
+							w.SignRenewal(&rn, keyIdx(w, fc.RenterPublicKey), keyIdx(w, fc.HostPublicKey))
+							t := types.V2Transaction{FileContractResolutions: []types.V2FileContractResolution{{Parent: fce.Copy(), Resolution: &rn}}}
+							if !excess.IsZero() {
+								t.SiacoinOutputs = []types.SiacoinOutput{{Value: excess, Address: w.Keys.Addr(chain.AddrV2)}}
+							}
+							return chain.Use{Name: "v2renew-small", V2: &t, Resolves: true}, true
+						}
+						if u0, ok := small(types.ZeroCurrency); ok {
+							try("v2 renewal into a smaller contract funded by rollover alone (control)", u0, true)
+							for _, ex := range []types.Currency{one, types.Siacoins(1), types.Siacoins(5)} {
+								if ux, ok := small(ex); ok {
+									try("v2 renewal rolls over more than the new contract costs", ux, false)
+								}
+							}
+						}
 						tamper("v2 renewal changes the renter key", func(rn *types.V2FileContractRenewal) { rn.NewContract.RenterPublicKey = w.Keys.Pub[3] })
 						tamper("v2 renewal new contract has passed proof height", func(rn *types.V2FileContractRenewal) {
 							if h > 0 {
